@@ -71,7 +71,8 @@ fn nrf_len(s: &[u8]) -> Option<usize> {
 
 fn is_foreign_numeric(c: u8) -> bool {
     // characters that can never be part of a numeric list
-    !(c.is_ascii_digit() || matches!(c, b'+' | b'-' | b'.' | b'e' | b'E' | b',' | b':' | b' ' | b'\t'))
+    // (white space of any kind is not judged: SCPI expressions may tolerate it)
+    !(c.is_ascii_digit() || c.is_ascii_whitespace() || matches!(c, b'+' | b'-' | b'.' | b'e' | b'E' | b',' | b':'))
 }
 
 pub fn numeric_list(s: &[u8]) -> Verdict<NumEntry> {
@@ -170,7 +171,7 @@ fn spec_at(s: &[u8]) -> Option<(Vec<i64>, usize)> {
 }
 
 fn is_foreign_channel(c: u8) -> bool {
-    !(c.is_ascii_digit() || matches!(c, b'+' | b'-' | b'!' | b',' | b':' | b'"' | b'\'' | b' ' | b'\t'))
+    !(c.is_ascii_digit() || c.is_ascii_whitespace() || matches!(c, b'+' | b'-' | b'!' | b',' | b':' | b'"' | b'\''))
 }
 
 /// `s` is the expression content including the leading '@'.
@@ -231,7 +232,11 @@ pub fn channel_list(s: &[u8]) -> Verdict<ChanEntry> {
                 let Some((b, m)) = spec_at(&s[j..]) else { return Verdict::Unknown };
                 i = j + m;
                 if a.len() != b.len() {
-                    // make sure the mismatch is not an artefact of a following '!'
+                    // only when the second end is itself cleanly delimited; otherwise the text is
+                    // malformed in some other way (e.g. "1!1:1-!") and no claim is made
+                    if i < s.len() && s[i] != b',' {
+                        return Verdict::Unknown;
+                    }
                     return Verdict::Listed { prefix: entries, partial: None, what: "range ends of different dimension" };
                 }
                 let e = ChanEntry::Range(a, b);
